@@ -466,10 +466,8 @@ func checkSocksWatchdog(p *Prog, r *Report, scan *ssa.Function) {
 				sawDone = true
 				// ctx is the probe's ctx
 				okCtx := false
-				for _, o := range p.Origins(ctxOfDone(st.Chan)) {
-					if o == ssa.Value(scan.Params[1]) {
-						okCtx = true
-					}
+				if reachesThroughHelpers(p, ctxOfDone(st.Chan), scan.Params[1], 0) {
+					okCtx = true
 				}
 				if !okCtx {
 					okW, whyW = false, "watchdog watches a different context"
@@ -486,10 +484,8 @@ func checkSocksWatchdog(p *Prog, r *Report, scan *ssa.Function) {
 					okW, whyW = false, "cancellation does not close the connection (the probe waits for its deadlines)"
 				}
 			} else {
-				for _, o := range p.Origins(st.Chan) {
-					if o == ssa.Value(mk) {
-						sawStop = true
-					}
+				if reachesThroughHelpers(p, st.Chan, mk, 0) {
+					sawStop = true
 				}
 			}
 		}
@@ -632,4 +628,25 @@ func checkSocksMessages(p *Prog, r *Report, scan *ssa.Function) {
 			}
 		}
 	}
+}
+
+// reachesThroughHelpers: some origin of v is `want`, looking through the parameters of helper
+// functions (a watchdog started as `go helper(ctx, conn, done)` sees the probe's own values).
+func reachesThroughHelpers(p *Prog, v ssa.Value, want ssa.Value, d int) bool {
+	if d > 3 || v == nil {
+		return false
+	}
+	for _, o := range p.Origins(v) {
+		if o == want {
+			return true
+		}
+		if prm, ok := o.(*ssa.Parameter); ok {
+			for _, a := range p.ArgsBoundTo(prm) {
+				if reachesThroughHelpers(p, a, want, d+1) {
+					return true
+				}
+			}
+		}
+	}
+	return false
 }
